@@ -30,7 +30,8 @@ def run(ctx):
     # (d) the edited file is the original text with the tokens spliced in, complete: C03's copy-through rules
     from . import c03 as _c03
     _run_as(_c03, _c03._Only(ctx, "C09-d", ("partial-write", "copy-shape", "scratch-write-census", "read-exact", "contents-unmodified", "contents-passed",
-                                              "writes-census", "copy-", "cursor", "tail", "anchor|")), ctx)
+                                              "writes-census", "copy-", "cursor", "tail", "anchor|", "table|insert", "extra-condition|insert",
+                                              "early-exit-first", "loop-filtered", "filter-source")), ctx)
     tb, tt = c12.token_template(ctx, facts, P)
     if tt is not None:
         c, pieces = tt
@@ -44,7 +45,7 @@ def run(ctx):
     from .c05 import rule_same_text
     rule_same_text(ctx, facts, "C09-b")
     # (c)
-    _run_as(c13, _Only(ctx, "C09-c", ("prefix-template", "prefix-key", "separators", "kv-count-complete", "kind-new", "anchor-after-target", "paren-anchor-only-without-target",
+    _run_as(c13, _Only(ctx, "C09-c", ("prefix-template", "prefix-key", "separators", "kv-count-complete", "kind-new", "anchor-after-target", "post-target-first-only", "paren-anchor-only-without-target",
                                       "G10|", "G14|", "G6|", "G15|", "G9|", "inner-handles", "post-target-span", "target-flag", "shift-span", "shift-paren", "key-constant")), ctx)
     from .finder import rule_statement_local_state
     rule_statement_local_state(ctx, facts, "C09-c")
